@@ -59,11 +59,11 @@ func (im *importer) val(rv reflect.Value) Value {
 	rt := rv.Type()
 	if rt == bigIntRT {
 		if rv.CanAddr() {
-			return BigVal{T: smt.Int(rv.Addr().Interface().(*big.Int))}
+			return BigVal{T: smt.Int(rv.Addr().Interface().(*big.Int)), Buf: &bigBuf{}}
 		}
 		c := reflect.New(rt).Elem()
 		c.Set(rv)
-		return BigVal{T: smt.Int(c.Addr().Interface().(*big.Int))}
+		return BigVal{T: smt.Int(c.Addr().Interface().(*big.Int)), Buf: &bigBuf{}}
 	}
 	switch rv.Kind() {
 	case reflect.String:
